@@ -23,7 +23,7 @@ def _run(item):
     return dyn.run_case(case, text, _SCRATCH)
 
 
-def run_batch(ck, cases, spec_name="Dynamics", need_actions=()):
+def run_batch(ck, cases, spec_name="Dynamics", need_actions=(), run_real=True):
     """TLC on all cases, real code on all cases; returns list of (case, text, expected outputs, real)."""
     global _SCRATCH
     _SCRATCH = scratch()
@@ -45,7 +45,7 @@ def run_batch(ck, cases, spec_name="Dynamics", need_actions=()):
                 raise MachineryError(f"Dynamics actions never taken (vacuous model): {missing}")
         for o in res.outputs:
             exp.setdefault(base + o["cid"] - 1, []).append(o)
-    real = pmap(_run, list(zip(cases, texts)))
+    real = pmap(_run, list(zip(cases, texts))) if run_real else [None] * len(cases)
     return [(cases[i], texts[i], exp.get(i, []), real[i]) for i in range(len(cases))]
 
 
